@@ -38,6 +38,14 @@ def clause_key(name):
 # --------------------------------------------------------------------------
 # property map: which obligations decide which property
 # --------------------------------------------------------------------------
+def load_baseline(prop):
+    p = os.path.join(VERIF, "baseline", f"{prop}.json")
+    try:
+        return set(json.load(open(p))["discharged_clauses"])
+    except Exception:
+        return set()
+
+
 def obligations_for(prop, con, ob_name, kind):
     from props.table import OWNED, PROPS
     key = clause_key(ob_name)
@@ -129,6 +137,9 @@ def _discharge_smt2(job):
         names = hyp_names if len(hyp_names) == len(hyps) else [None] * len(hyps)
         ob = Obligation(name, hyps, goal, kind, {"hyp_names": names})
         con = REGISTRY.get(qual)
+        if con is not None and getattr(con, "slices", None):
+            from pyvc.vc import _keywords
+            ob.meta["slice_hints"] = con.slices.get(_keywords(name))
         d = discharge(ob, timeout_ms=timeout_ms)
         rec = dict(name=name, kind=kind, verdict=d["verdict"], time_s=d["time_s"], tried=d.get("tried"), idx=i)
         if d["verdict"] != "unsat":
@@ -387,6 +398,16 @@ def assemble(prop, tier, seed, spec, quals, lem, results, t_start, early_standin
             violations.append(o)
         else:
             undecided.append(o)
+    # An obligation whose clause was discharged on the unchanged tree (committed baseline, /verif/baseline/<prop>.json) and is not discharged
+    # now is reported as a violation of that named obligation even when the solver gives no definite counter-model ("unknown" / candidate
+    # model only): the stand-in below still tries to find a concrete replay; without one the line ends in no-failing-input-found.
+    # Obligations of clauses the baseline does not know (new paths / new functions) stay UNDECIDED.
+    base_keys = load_baseline(prop)
+    regressed = [o for o in undecided if clause_key(o["name"]) in base_keys]
+    for o in regressed:
+        o["regressed"] = True
+    violations += regressed
+    undecided = [o for o in undecided if not o.get("regressed")]
     # bounded stand-in / replay harness on the real tree (also the source of concrete replays)
     hints = [o.get("model") for o in violations + undecided if o.get("model")]
     standin = early_standin if (early_standin is not None and not hints and not (violations or undecided)) else None
@@ -416,7 +437,7 @@ def assemble(prop, tier, seed, spec, quals, lem, results, t_start, early_standin
         else:
             lines.append(f"VIOLATION property={prop} replay={replay_path}")
         for o in violations[:8]:
-            lines.append(f"  failed obligation: {o['name']} ({o['verdict']})")
+            lines.append(f"  failed obligation: {o['name']} ({o['verdict']}{', discharged on the unchanged tree' if o.get('regressed') else ''})")
     elif undecided:
         status = 2
         for o in undecided[:8]:
@@ -458,6 +479,7 @@ def assemble(prop, tier, seed, spec, quals, lem, results, t_start, early_standin
             "vacuity": {"hyps_checked": sum(1 for o in obs if "hyps_sat" in o), "hyps_sat": sum(1 for o in obs if o.get("hyps_sat") in ("sat", "qf-sat")),
                         "hyps_unknown": sum(1 for o in obs if o.get("hyps_sat") == "unknown")},
             "known_findings": sorted({o["known_finding"] for o in known}),
+            "baseline_clauses": len(base_keys),
             "not_discharged": [dict(name=o["name"], verdict=o["verdict"]) for o in failed if o not in known][:20],
             "trusted_contracts": trusted, "inlined_accessors": inl,
             "axioms": [f"{n}: {w}" for n, _, w in AXIOMS],
@@ -473,6 +495,13 @@ def assemble(prop, tier, seed, spec, quals, lem, results, t_start, early_standin
         "wall_s": round(time.time() - t_start, 2),
         "violations": len(violations) + len(new_failures),
     }
+    if os.environ.get("VERIF_WRITE_BASELINE") and status == 0:
+        # (maintainer action on the unchanged tree only) record which clauses are discharged
+        os.makedirs(os.path.join(VERIF, "baseline"), exist_ok=True)
+        keys = sorted({clause_key(o["name"]) for o in discharged})
+        bad = {clause_key(o["name"]) for o in failed}
+        with open(os.path.join(VERIF, "baseline", f"{prop}.json"), "w") as f:
+            json.dump({"property": prop, "discharged_clauses": [k for k in keys if k not in bad]}, f, indent=0)
     if not os.environ.get("VERIF_NO_EVIDENCE"):     # (developer runs against scratch trees do not overwrite evidence)
         os.makedirs(os.path.join(VERIF, "evidence"), exist_ok=True)
         with open(os.path.join(VERIF, "evidence", f"{prop}.json"), "w") as f:
